@@ -6,8 +6,8 @@
 #include <ctype.h>
 extern void dreadtriple_noheader(int *, int *, int_t *, double **, int_t **, int_t **);
 
-static const char *const CNT[] = { "hb_files", "rb_files", "mm_files", "triplet_files", "triplet_noheader_files", "symmetric_files", "sym_all_diag", "sym_some_diag", "sym_no_diag", "with_rhs_block", "D_exponent", "P_scale", "F_editing", "complex_files", "zero_based", "comment_lines", NULL };
-enum { K_HB, K_RB, K_MM, K_TR, K_TRN, K_SYM, K_SALL, K_SSOME, K_SNONE, K_RHS, K_DEXP, K_PSC, K_FED, K_CPLX, K_ZB, K_COMM };
+static const char *const CNT[] = { "hb_files", "rb_files", "mm_files", "triplet_files", "triplet_noheader_files", "symmetric_files", "sym_all_diag", "sym_some_diag", "sym_no_diag", "with_rhs_block", "D_exponent", "P_scale", "F_editing", "complex_files", "zero_based", "comment_lines", "hb_descending_row_order", NULL };
+enum { K_HB, K_RB, K_MM, K_TR, K_TRN, K_SYM, K_SALL, K_SSOME, K_SNONE, K_RHS, K_DEXP, K_PSC, K_FED, K_CPLX, K_ZB, K_COMM, K_DESC };
 static const char *const RAT[] = { NULL };
 
 /* ------------------------------------------------------------- matrices */
@@ -53,12 +53,15 @@ static int lines_for(long n, int per) { return (int)((n + per - 1) / per); }
 /* expected matrix as read back: value of each printed field */
 typedef struct { int m, n; long nnz; dmat A; } expect;
 
+static int hb_desc = 0;
 /* HB / RB: compressed column of `S` (what is stored: full matrix, or lower triangle incl. stored diagonal for symmetric) */
 static void write_hb(sbuf *s, const vf_type *T, const dmat *A, int symmetric, int pf, int xf, int vf, int with_rhs, int rb, expect *E)
 {
     int n = A->n; long nnz = 0; static int_t cp[NMAX + 1], ri[NMAX * NMAX]; static double vr[NMAX * NMAX], vi[NMAX * NMAX];
     for (int j = 0; j < n; j++) { cp[j] = (int_t)nnz; for (int i = 0; i < n; i++) if (DZ(A, i, j) && (!symmetric || i >= j)) { ri[nnz] = i; vr[nnz] = (double)creall(DM(A, i, j)); vi[nnz] = (double)cimagl(DM(A, i, j)); nnz++; } }
     cp[n] = (int_t)nnz;
+    if (hb_desc) for (int j = 0; j < n; j++) for (long a = cp[j], b = cp[j + 1] - 1; a < b; a++, b--) {   /* entries of a column in descending row order: the stored diagonal of a symmetric file comes last */
+        int_t ti = ri[a]; ri[a] = ri[b]; ri[b] = ti; double t = vr[a]; vr[a] = vr[b]; vr[b] = t; t = vi[a]; vi[a] = vi[b]; vi[b] = t; }
     long nvals = T->cplx ? 2 * nnz : nnz;
     int ptrcrd = lines_for(n + 1, IF[pf].per), indcrd = lines_for(nnz, IF[xf].per), valcrd = lines_for(nvals, VF[vf].per), rhscrd = (with_rhs && !rb) ? lines_for(n, VF[vf].per) : 0;
     sb_printf(s, "%-72s%-8s\n", "verif generated matrix", "VF000001");
@@ -121,7 +124,7 @@ static void s_mm(const int *d, vcase *c) { pat_small(d[0], c); c->aux = 2; c->au
 static void s_tr(const int *d, vcase *c) { pat_small(d[0], c); c->aux = 3; c->rhs = d[1]; c->permid = d[2]; c->type = d[3]; c->vals = d[0] % 3; }
 static void s_trn(const int *d, vcase *c) { pat_small(d[0], c); c->aux = 4; c->rhs = d[1]; c->permid = d[2]; c->type = TD; c->vals = d[0] % 3; }
 static const family F16[] = {
-    { "HB/RB: (ALL(1..3) + DEV_1(BASE(5))) x {HB,RB} x 6 value formats x 4 integer formats x {general, symmetric} x {no rhs, rhs block} x type4", 7, { NPAT, 2, 6, 4, 2, 2, 4 }, s_hb },
+    { "HB/RB: (ALL(1..3) + DEV_1(BASE(5))) x {HB,RB} x 6 value formats x 4 integer formats x {general, symmetric, symmetric with descending rows, general with descending rows} x {no rhs, rhs block} x type4", 7, { NPAT, 2, 6, 4, 4, 2, 4 }, s_hb },
     { "Matrix Market: patterns x {general, symmetric} x {plain, comment lines} x 24 entry orders x type4", 5, { NPAT, 2, 2, 24, 4 }, s_mm },
     { "triplet with header: patterns x {1-based, 0-based} x 24 entry orders x type4", 4, { NPAT, 2, 24, 4 }, s_tr },
     { "triplet without header (EXAMPLE/dreadtriple_noheader.c): patterns x {1-based,0-based} x 24 entry orders", 3, { NPAT, 2, 24 }, s_trn },
@@ -134,7 +137,8 @@ static void desc_16(int tier, char *b, size_t cap) { fam_describe(F16, NF(F16), 
 static void run_C16(const vcase *c, vres *r)
 {
     const vf_type *T = vf_T(c->type); int n = c->n; dmat A; expect E; sbuf s = { 0, 0, 0 };
-    int symmetric = (c->aux <= 2) ? c->aux3 : 0;
+    int symmetric = (c->aux <= 2) ? (c->aux3 == 1 || c->aux3 == 2) : 0;
+    hb_desc = (c->aux <= 1 && c->aux3 >= 2); if (hb_desc) WK_COUNT(K_DESC);
     vcase cc = *c; if (c->aux <= 1 && VF[c->k].kind == 'F') cc.k = 4; else cc.k = 0;
     make_matrix(&cc, T, &A, symmetric);
     long stored = 0; for (int i = 0; i < n; i++) for (int j = 0; j < n; j++) if (DZ(&A, i, j) && (!symmetric || i >= j)) stored++;
